@@ -257,7 +257,15 @@ std::string runWrite(const WriteCase &c) {
         for (size_t i = 0; i < len; ++i) src[i] = static_cast<unsigned char>('a' + (counter++ % 23));
         if (len > largest) largest = len;
         for (int attempt = 0;; ++attempt) {
-          try { wb.append(src.get(), len); break; }
+          // append() is a template on the element type of the caller's pointer; the length is always a byte count
+          try {
+            const int typeSel = static_cast<int>((oi + len) % 4);
+            if (typeSel == 2) { wb.append(reinterpret_cast<const uint16_t *>(src.get()), len); st.cls("write.typed_pointer"); }
+            else if (typeSel == 3) { wb.append(reinterpret_cast<const uint32_t *>(src.get()), len); st.cls("write.typed_pointer"); }
+            else wb.append(src.get(), len);
+            if (typeSel >= 2 && len >= N && bufBefore > 0) st.cls("write.typed_pointer_oversized_block_on_filled_buffer");
+            break;
+          }
           catch (const SinkFailure &) {
             if (attempt > 6) return where + "sink keeps failing";
             std::string p = afterFailure(where);
